@@ -1,6 +1,6 @@
 """C10 — every session of a boundary-driving grammar against the REAL engine binary built with
 ASan + bounds-strict + _GLIBCXX_ASSERTIONS (and a subset under valgrind memcheck)."""
-import json, os, re, select, shutil, subprocess, sys, time
+import json, os, re, select, shutil, subprocess, sys, tempfile, time
 from concurrent.futures import ThreadPoolExecutor
 import vbuild, driver
 from driver import HarnessError, VERIF, TMP
@@ -43,31 +43,40 @@ class Runner:
 
     def run(self, rounds, pre=(), timeout=120):
         """rounds: list of (position_line, go_line, needs_stop, pre_lines). Returns (ok, kind, where, stderr_tail, lines_sent)."""
-        p = subprocess.Popen(self.wrapper + [self.exe], stdin=subprocess.PIPE, stdout=subprocess.PIPE, stderr=subprocess.PIPE, text=True, env=self.env, bufsize=1)
+        errf = tempfile.TemporaryFile()
+        p = subprocess.Popen(self.wrapper + [self.exe], stdin=subprocess.PIPE, stdout=subprocess.PIPE, stderr=errf, env=self.env, bufsize=0)
         sent = []
 
         def send(l):
             sent.append(l if len(l) < 200 else l[:120] + " ...(%d chars)" % len(l))
             try:
-                p.stdin.write(l + "\n")
+                p.stdin.write((l + "\n").encode())
                 p.stdin.flush()
                 return True
             except (BrokenPipeError, OSError):
                 return False
 
+        fd = p.stdout.fileno()
+        buf = [b""]
+
         def wait_best(limit):
+            # manual line splitting on the raw fd: select() must not be fooled by Python-side buffering
             end = time.time() + limit
-            while time.time() < end:
-                r, _, _ = select.select([p.stdout], [], [], 0.5)
-                if r:
-                    line = p.stdout.readline()
-                    if line == "":
-                        return False
-                    if line.startswith("bestmove"):
+            while True:
+                while b"\n" in buf[0]:
+                    line, buf[0] = buf[0].split(b"\n", 1)
+                    if line.startswith(b"bestmove"):
                         return True
+                if time.time() >= end:
+                    return None
+                r, _, _ = select.select([fd], [], [], 0.5)
+                if r:
+                    chunk = os.read(fd, 65536)
+                    if chunk == b"":
+                        return False
+                    buf[0] += chunk
                 elif p.poll() is not None:
                     return False
-            return None
 
         verdict = "ok"
         try:
@@ -92,15 +101,27 @@ class Runner:
                     break
             send("quit")
             try:
-                out, err = p.communicate(timeout=30)
-            except subprocess.TimeoutExpired:
+                p.stdin.close()
+            except OSError:
+                pass
+            end = time.time() + 30
+            while p.poll() is None and time.time() < end:
+                r, _, _ = select.select([fd], [], [], 0.2)
+                if r and os.read(fd, 65536) == b"":
+                    time.sleep(0.05)
+            if p.poll() is None:
                 p.kill()
-                out, err = p.communicate()
+                p.wait()
                 if verdict == "ok":
                     verdict = "no_exit_after_quit"
         finally:
             if p.poll() is None:
                 p.kill()
+                p.wait()
+            p.stdout.close()
+        errf.seek(0)
+        err = errf.read().decode(errors="replace")
+        errf.close()
         rc = p.returncode
         kind, where = None, ""
         m = re.search(r"(engine/[\w.]+):(\d+):\d+: runtime error: ([^\n]*)", err)
